@@ -1,0 +1,120 @@
+//! Verification hook (only compiled with `--cfg logos_verif`).
+//!
+//! Serialises a [Graph] (states, byte-range edges, EOI edges, early/accept
+//! markers, root, leaf priorities/kinds/sources and graph errors) as one JSON
+//! line into the thread-local sink of [crate::verif]. Recording is a no-op
+//! unless a harness switched the sink on, so the hook is inert inside rustc.
+
+use std::fmt::Write;
+
+use super::{Graph, GraphError};
+use crate::leaf::VariantKind;
+
+fn json_str(out: &mut String, s: &str) {
+    out.push('"');
+    for c in s.chars() {
+        match c {
+            '"' => out.push_str("\\\""),
+            '\\' => out.push_str("\\\\"),
+            c if (c as u32) < 0x20 => {
+                let _ = write!(out, "\\u{:04x}", c as u32);
+            }
+            c => out.push(c),
+        }
+    }
+    out.push('"');
+}
+
+fn opt(out: &mut String, v: Option<usize>) {
+    match v {
+        Some(v) => {
+            let _ = write!(out, "{v}");
+        }
+        None => out.push_str("null"),
+    }
+}
+
+impl Graph {
+    /// Record a snapshot of this graph under the name `stage`.
+    pub(crate) fn verif_snapshot(&self, stage: &str) {
+        if !crate::verif::enabled() {
+            return;
+        }
+        let mut o = String::new();
+        o.push_str("{\"stage\":");
+        json_str(&mut o, stage);
+        let _ = write!(o, ",\"root\":{}", self.root.0);
+        o.push_str(",\"leaves\":[");
+        for (i, leaf) in self.leaves.iter().enumerate() {
+            if i > 0 {
+                o.push(',');
+            }
+            let _ = write!(o, "{{\"prio\":{},\"kind\":", leaf.priority);
+            match &leaf.kind {
+                VariantKind::Unit(id) => {
+                    o.push_str("\"unit\",\"name\":");
+                    json_str(&mut o, &id.to_string());
+                }
+                VariantKind::Value(id, _) => {
+                    o.push_str("\"value\",\"name\":");
+                    json_str(&mut o, &id.to_string());
+                }
+                VariantKind::Skip => o.push_str("\"skip\",\"name\":null"),
+            }
+            o.push_str(",\"pattern\":");
+            json_str(&mut o, &leaf.pattern.to_string());
+            let _ = write!(o, ",\"callback\":{}}}", leaf.callback.is_some());
+        }
+        o.push_str("],\"errors\":[");
+        for (i, err) in self.errors.iter().enumerate() {
+            if i > 0 {
+                o.push(',');
+            }
+            match err {
+                GraphError::NoUniversalStart => o.push_str("{\"t\":\"nostart\"}"),
+                GraphError::EmptyMatch(l) => {
+                    let _ = write!(o, "{{\"t\":\"empty\",\"leaf\":{}}}", l.0);
+                }
+                GraphError::Disambiguation(ls) => {
+                    o.push_str("{\"t\":\"disamb\",\"leaves\":[");
+                    for (j, l) in ls.iter().enumerate() {
+                        if j > 0 {
+                            o.push(',');
+                        }
+                        let _ = write!(o, "{}", l.0);
+                    }
+                    o.push_str("]}");
+                }
+            }
+        }
+        o.push_str("],\"states\":[");
+        for (i, st) in self.states.iter().enumerate() {
+            if i > 0 {
+                o.push(',');
+            }
+            o.push_str("{\"early\":");
+            opt(&mut o, st.state_type.early.map(|l| l.0));
+            o.push_str(",\"accept\":");
+            opt(&mut o, st.state_type.accept.map(|l| l.0));
+            o.push_str(",\"eoi\":");
+            opt(&mut o, st.eoi.map(|s| s.0));
+            o.push_str(",\"edges\":[");
+            for (j, (bc, target)) in st.normal.iter().enumerate() {
+                if j > 0 {
+                    o.push(',');
+                }
+                let _ = write!(o, "{{\"to\":{},\"ranges\":[", target.0);
+                for (k, r) in bc.ranges.iter().enumerate() {
+                    if k > 0 {
+                        o.push(',');
+                    }
+                    let _ = write!(o, "[{},{}]", r.start(), r.end());
+                }
+                o.push_str("]}");
+            }
+            o.push_str("]}");
+        }
+        o.push_str("]}");
+        crate::verif::push(o);
+    }
+}
